@@ -6,15 +6,15 @@
 (* intermediate results and resolved state.                                     *)
 EXTENDS Room, Json, SequencesExt
 
-IdRank == [x \in {"$A", "$B", "$C", "$D", "$E", "$F", "$G", "$H", "$a", "$b", "$c", "$d", "$e", "$f"} |->
-             CASE x = "$A" -> 1 [] x = "$B" -> 2 [] x = "$C" -> 3 [] x = "$D" -> 4 [] x = "$E" -> 5 [] x = "$F" -> 6
-               [] x = "$G" -> 7 [] x = "$H" -> 8 [] x = "$a" -> 11 [] x = "$b" -> 12 [] x = "$c" -> 13 [] x = "$d" -> 14
-               [] x = "$e" -> 15 [] x = "$f" -> 16]
+IdNames == <<"$A", "$B", "$C", "$D", "$E", "$F", "$G", "$H", "$I", "$J", "$K", "$L", "$a", "$b", "$c", "$d", "$e", "$f">>
+IdRank == [x \in {IdNames[i] : i \in 1..Len(IdNames)} |-> CHOOSE i \in 1..Len(IdNames) : IdNames[i] = x]
 IdLessImpl(x, y) == IdRank[x] < IdRank[y]
 ServersImpl == {S1, S2}
 NewIdsImpl == <<"$a", "$b", "$c", "$d", "$e", "$f">>
 
 CONSTANT BaseNames
+CONSTANT AllSubsets    \* also resolve arbitrary collections of 2 or 3 states of the DAG (not only the pending merges)
+CONSTANT Triples       \* with AllSubsets: triples too (pairs only otherwise)
 
 \* ---- base rooms: <<server, proto, id, ts>>
 Base(name) ==
@@ -51,6 +51,20 @@ Base(name) ==
            <<S2, PMember(UB, UB, "join"), "$F", 0>>,
            <<S1, PJoinRules(UA, "invite"), "$G", 1, {"$F"}>>,
            <<S1, PPowerLevels(UC, MkPL((UC.name :> 100) @@ (UA.name :> 100) @@ (UB.name :> 50))), "$H", 0, {"$F"}>>>>
+    [] name = "twostep" ->       \* a merge of two branches that is merged again with a continuation of one of them: two power
+                                 \* levels events X ($G) and Y ($I) on two branches, A's leave $H cites X, $J merges both
+                                 \* branches (Y wins, the leave survives), $K continues the second branch without having seen X:
+                                 \* between the states after $J and $K the power levels are unconflicted and X only occurs in
+                                 \* the auth difference
+         <<<<S1, PCreate, "$A", 0>>, <<S1, PMember(UC, UC, "join"), "$B", 0>>,
+           <<S1, PPowerLevels(UC, MkPL((UC.name :> 100))), "$C", 0>>,
+           <<S1, PJoinRules(UC, "public"), "$D", 0>>, <<S1, PMember(UA, UA, "join"), "$E", 5>>,
+           <<S2, PMember(UB, UB, "join"), "$F", 0>>,
+           <<S1, PPowerLevels(UC, MkPL((UC.name :> 100) @@ (UA.name :> 50))), "$G", 1, {"$F"}>>,
+           <<S1, PMember(UA, UA, "leave"), "$H", 1, {"$G"}>>,
+           <<S1, PPowerLevels(UC, MkPL((UC.name :> 100) @@ (UA.name :> 50) @@ (UB.name :> 50))), "$I", 2, {"$F"}>>,
+           <<S1, PTopic(UC, 1), "$J", 3, {"$H", "$I"}>>,
+           <<S1, PTopic(UC, 2), "$K", 3, {"$I"}>>>>
     [] name = "restricted" ->    \* restricted room (v8+): A joined with 50, B outside
          <<<<S1, PCreate, "$A", 0>>, <<S1, PMember(UC, UC, "join"), "$B", 0>>,
            <<S1, PPowerLevels(UC, MkPL((UC.name :> 100) @@ (UA.name :> 50))), "$C", 0>>,
@@ -66,7 +80,15 @@ Init == /\ nnew = 0
 \* ---- merges pending in a state
 Leaves == {i \in DOMAIN world.events : \A j \in DOMAIN world.events : i \notin world.events[j].prev}
 MergeSets == {{world.after[h] : h \in Heads(world, s)} : s \in Servers} \cup {{world.after[h] : h \in Leaves}}
-Merges == {S \in MergeSets : Cardinality(S) >= 2}
+\* resolve is defined for any collection of states: every pair and triple of states after events of the DAG that contains
+\* the state after the newest event (every pair and triple in the base room itself)
+Newest == IF nnew = 0 THEN {} ELSE {i \in DOMAIN world.events : \A j \in DOMAIN world.events : i \notin world.events[j].chain /\ i \notin world.events[j].prev}
+SubsetMerges ==
+  IF ~AllSubsets THEN {}
+  ELSE LET all == AllStates
+           must == IF nnew = 0 THEN all ELSE {world.after[i] : i \in Newest}
+       IN {{x, y} : x \in must, y \in all} \cup (IF Triples THEN {{x, y, z} : x \in must, y \in all, z \in all} ELSE {})
+Merges == {S \in MergeSets \cup SubsetMerges : Cardinality(S) >= 2}
 
 \* resolving a single state set is the identity (checked for the forward extremities)
 InvIdentity == ResolveIdentity(Leaves) /\ ChainOk(world.events)
@@ -102,6 +124,9 @@ EmitMerge(S) ==
         sets |-> [i \in 1..Len(sets) |-> StateList(sets[i])],
         chains |-> [i \in 1..Len(sets) |-> FullChain(world.events, sets[i])],
         full |-> d.full, power |-> d.power, rest |-> d.rest, resolved |-> StateList(d.resolved),
-        rest_oldest |-> o.rest, resolved_oldest |-> StateList(o.resolved) ])>>)
+        rest_oldest |-> o.rest, resolved_oldest |-> StateList(o.resolved),
+        \* the connected reading of "P's auth chain within the full conflicted set" (see StateRes.tla), with either mainline rule
+        variants |-> [n \in 1..2 |-> LET x == ResolveDetailV(world.events, S, R, IF n = 1 THEN Inf ELSE 0, TRUE) IN
+                                      [power |-> x.power, rest |-> x.rest, resolved |-> StateList(x.resolved)]] ])>>)
 Emit == \A S \in Merges : EmitMerge(S)
 =============================================================================
